@@ -4,7 +4,7 @@ from ..net import *
 
 ID = "C05"
 LEVEL = "exploration"
-RULE = ("skeletons pumpfeed (R-pump-J1-p2-J2-p3-T), twosrc (R-p1-J1-p2-J2-p3-T) and valve (p2 = TCV) with a small tank (diameter "
+RULE = ("skeletons pumpfeed (R-pump-J1-p2-J2-p3-T), twosrc (R-p1-J1-p2-J2-p3-T), valve (p2 = TCV) and deadend (twosrc + dead-end J3 that one control cuts off while another watches its pressure) with a small tank (diameter "
         "5 m) x demand patterns {fill, drain, fill-then-drain, saw-tooth} x ALL single simple controls and the sets of two (quick: "
         "hysteresis pairs and same-target pairs; thorough: ALL pairs, plus triples on a reduced alphabet) from: LINK x OPEN|CLOSED IF "
         "TANK T ABOVE|BELOW L, L in {just inside min, low, mid, high, just inside max}; IF JUNCTION J2 ABOVE|BELOW p; TCV SETTING s "
@@ -31,6 +31,10 @@ def skeleton(name, pat, hyd, cv=False):
     elif name == "twosrc":
         s = spec([R("R", 38.0), J("J1", 0.0, [[0.0, None, None]]), J("J2", 5.0, [[0.02, "D", None]]), tank],
                  [P("src", "R", "J1"), P("p2", "J1", "J2", cv=cv), P("p3", "J2", "T")])
+    elif name == "deadend":
+        # a dead-end junction J3 that another control can cut off: its reported pressure is then 0
+        s = spec([R("R", 38.0), J("J1", 0.0, [[0.0, None, None]]), J("J2", 5.0, [[0.02, "D", None]]), tank, J("J3", 2.0, [[0.004, None, None]])],
+                 [P("src", "R", "J1"), P("p2", "J1", "J2", cv=cv), P("p3", "J2", "T"), P("p4", "J2", "J3", L=200.0, D=0.2)])
     else:
         s = spec([R("R", 38.0), J("J1", 0.0, [[0.0, None, None]]), J("J2", 5.0, [[0.02, "D", None]]), tank],
                  [P("src", "R", "J1"), V("p2", "J1", "J2", "TCV", 2.0), P("p3", "J2", "T")])
@@ -57,7 +61,20 @@ def control_alphabet(skel):
 
 def cases(tier):
     out = []
-    for skel, pat in itertools.product(("pumpfeed", "twosrc", "valve"), DEM):
+    for skel, pat in itertools.product(("pumpfeed", "twosrc", "valve", "deadend"), DEM):
+        if skel == "deadend":
+            # isolation x pressure control: one control cuts the dead end off, another one watches its pressure
+            cut = [{"kind": "level", "node": "T", "rel": rel, "thr": L, "link": "p4", "value": "CLOSED"} for rel, L in ((">", 3.5), (">", 4.5), ("<", 2.5))]
+            cut += [{"kind": "level", "node": "T", "rel": "<", "thr": 5.9, "link": "p4", "value": "CLOSED"}]        # true from the start
+            watch = [{"kind": "pressure", "node": "J3", "rel": rel, "thr": 15.0, "link": tgt, "value": val}
+                     for rel in ("<", ">") for tgt in ("src", "p2") for val in ("CLOSED", "OPEN")]
+            sets = [[a, b] for a in cut for b in watch] + [[b] for b in watch]
+            for cs in sets:
+                s2 = skeleton(skel, pat, H)
+                s2["controls"] = [dict(c, prio=3, name="c%d" % i) for i, c in enumerate(cs)]
+                s2["id"] = {"skel": skel, "pat": pat, "hyd": H, "cv": False, "controls": s2["controls"]}
+                out.append(s2)
+            continue
         A = control_alphabet(skel)
         sets = [[a] for a in A]
         pairs = []
